@@ -231,10 +231,33 @@ func consume(b buffer.Buffer, cons, off, maxChunk, readBuf, sinkFail, maxSize in
 		var err1, err2 error
 		done := 0
 		s := rt.Active()
+		// the second clone either reads as well, or is discarded, or reads
+		// one chunk and closes (chosen by the offset parameter): a consumer
+		// that does not need validation must not switch it off for the other
+		mode := off % 3
 		s.Go("clone1", func() { d1, err1 = b1.ToByteSlice(maxSize); done++ })
-		s.Go("clone2", func() { d2, err2 = b2.ToByteSlice(maxSize); done++ })
+		s.Go("clone2", func() {
+			switch mode {
+			case 0:
+				d2, err2 = b2.ToByteSlice(maxSize)
+			case 1:
+				b2.Discard()
+				d2, err2 = nil, nil
+			default:
+				cr := b2.ToChunkReader(0, 1)
+				cr.Read()
+				cr.Close()
+			}
+			done++
+		})
 		s.WaitUntil("clones done", func() bool { return done == 2 })
-		if err1 == nil && err2 == nil {
+		if mode != 0 {
+			if err1 == nil {
+				r.Got, r.Completed = d1, true
+			} else {
+				r.Err = err1
+			}
+		} else if err1 == nil && err2 == nil {
 			if !bytes.Equal(d1, d2) {
 				r.Err = fmt.Errorf("stream clones differ")
 			}
@@ -491,6 +514,8 @@ func drawC09Case(t *sim.Tape) *c09Case {
 		if t.Chance(1, 4) {
 			cs.SinkFail = t.Choose(n + 1)
 		}
+	case consCloneStream:
+		cs.Off = t.Choose(3)
 	}
 	cs.MaxSize = 1000
 	if t.Chance(1, 10) {
